@@ -1,34 +1,63 @@
+import Dnp3.Gen.DbTypes
+import Dnp3.Gen.Qualifiers
 /-!
 # Outstation database — executable model of `outstation/database/**`
 
 Event buffer (`details/event/{buffer,list,writer,write_fn,traits}.rs`), static database
 (`details/range/{static_db,writer,traits}.rs`), READ header mapping (`read.rs`) and response
-writing (`details/database.rs`, `mod.rs`) for the two point types the harness configures:
+writing (`details/database.rs`, `mod.rs`) for ALL point types of the library's database.  The type
+enumeration itself is generated (`Gen.DbT.Ty` = the variants of `enum Event`):
 
-* binary input  — static g1v2, event g2v1, `FlagsDetector`
-* analog input  — static g30v1, event g32v1, dead-band 0; values are integers carried as `f64`
-  (exact for |value| < 2^53)
+| type                 | static        | events        | value                              | detector            |
+|----------------------|---------------|---------------|------------------------------------|---------------------|
+| `binary`             | g1v1(bits),v2 | g2v1..3       | 0 / 1                              | wire flags          |
+| `doubleBitBinary`    | g3v1(2 bits),v2 | g4v1..3     | 0..3 (`DoubleBit::to_byte`)        | wire flags          |
+| `binaryOutputStatus` | g10v1(bits),v2| g11v1..2      | 0 / 1                              | wire flags          |
+| `counter`            | g20v1,2,5,6   | g22v1,2,5,6   | u32                                | flags, dead-band    |
+| `frozenCounter`      | g21v1,2,5,6,9,10 | g23v1,2,5,6 | u32                               | flags, dead-band    |
+| `analog`             | g30v1..6      | g32v1..8      | integer carried as `f64`           | flags, dead-band    |
+| `analogOutputStatus` | g40v1..4      | g42v1..8      | integer carried as `f64`           | flags, dead-band    |
+| `octetString`        | g110v<len>    | g111v<len>    | octets (length 0..255)             | octets differ       |
 
-with `EventBufferConfig::no_events()` + `max_binary = max_analog = evMax`, the default
-`ClassZeroConfig`, and `max_read_request_headers` = `max(configured, 64)`.
+(analog values and dead-bands are integers, exact for |value| < 2^53).  Per-point configured static /
+event variation and dead-band, `UpdateOptions` (`update_static`, `EventMode` Detect / Force / Suppress), per-type
+event buffer capacities (`EventBufferConfig`), `ClassZeroConfig`, `max_read_request_headers` =
+`max(configured, 64)`.  Every update carries `Some(Time::Synchronized t)`.
+
+Generated tables consumed here (`Dnp3.Gen.DbT`, re-extracted from the source on every run; their
+well-formedness is `Dnp3.Proofs.DbTables`):
+`insertable` (the slots `impl Insertable` touches), `typeCounterModify`, `countersDecrement`,
+`isAnyFull`, `eventHdrTy` / `staticHdrTy` / `writeRangeTy` / `updatable` (which type a header variant,
+a queue entry, a map accessor means), `classZeroOrder`, `detector`, and the three READ tables
+`readAllObjects` / `readCount` / `readRange` (`ReadHeader::from_*`: variation ↦ type, requested
+variation, whether the range / count is kept).  Which (group, variation) the request parser accepts
+with which qualifier in a READ comes from `Gen.allObjects` / `Gen.countTable` / `Gen.rangedRead`.
 
 The interface (`PtType`, `ReadHdr`, `UpdInfo`, `Db`, `Db.new`, `Db.add`, `Db.update`, `Db.select`,
 `Db.writeResponse`, `Db.writeUnsolicited`, `Db.clearWritten`, `Db.reset`, `Db.unwrittenClasses`,
 `Db.isOverflown`, plus `Db.readSupported`) is the contract of the session model
 (`Dnp3.Model.Outstation`).  Everything else lives in `Dnp3.DbM` (helpers) or is `Db.`-prefixed.
 
+Two encodings keep that interface's signatures as they were when only two types existed:
+* `Db.new (evMax : Nat)`: the number is the per-type configuration, eight base-65536 digits in the
+  order of `Ty` (+ a ninth digit whose low 8 bits flip the default `ClassZeroConfig`);
+  `Db.newCfg` takes the configuration itself and `DbM.legacyEv n` is "binary and analog inputs `n`".
+* `Db.update t idx …` with `idx ≥ 65536` addresses point `idx % 65536` of the type number
+  `idx / 65536 % 16 - 1` with the update options number `idx / 65536 / 16` (`DbM.decodeUpd`; an octet
+  string's octets are the base-256 digits of the value below a leading 1); `Db.updateOpt` takes type,
+  index, measurement and `UpdateOptions` directly.  `Db.add t idx …` with `idx ≥ 65536` gives the point
+  the dead-band `idx / 65536`; `Db.addCfg` takes the whole configuration.
+
 READ headers covered (`ReadHdr.classify`): every (group, variation) the request parser accepts
-with qualifiers 0x06, 0x00, 0x01, 0x07, 0x08 — g60v1..4; g1v0..2, g30v0..6, g34v0..3 (dead-bands,
-always 0); g2v0..3 (g2v3 with its g51v1 common-time header), g32v0..8; the types without points
-(g3, g10, g20, g21, g40, g110 static; g4, g11, g22, g23, g42, g111v0 events; g31 / g33 frozen
-analogs); g0 device attributes (none defined); and the headers `ReadHeader::get` rejects
-(g13, g43, g80, g102, g111vN, g50/51/52) → IIN2.0.  Not covered: qualifiers 0x17 / 0x28 / 0x5B
-inside a READ (`uncovered`).  `parseReadHdrs` splits request octets; `classify = parseError`
-marks what `HeaderCollection::parse` refuses (the whole request is then refused).
+with qualifiers 0x06, 0x00, 0x01, 0x07, 0x08; g0 device attributes (none defined); and the headers
+`ReadHeader::get` rejects → IIN2.0.  Not covered: qualifiers 0x17 / 0x28 / 0x5B inside a READ
+(`uncovered`).  `parseReadHdrs` splits request octets; `classify = parseError` marks what
+`HeaderCollection::parse` refuses (the whole request is then refused).
 
 Conventions: indices < 65536, flags < 256 (octets), times are reduced mod 2^48
 (`Timestamp::new`), event class 1..3 (anything else = no class).  `VecList` is abstracted to `List`
-(`add` = append, `remove_first p`, `remove_all p`, `iter` = list order).
+(`add` = append, `remove_first p`, `remove_all p`, `iter` = list order); its capacity (the sum of the
+per-type maxima) is never reached: `DbProofs.events_within_capacity`.
 
 `insert` into a full type discards the oldest record of that type; when that record is `Written`
 (carried by a response that still awaits its confirm) `written` is decremented with `total`
@@ -36,8 +65,12 @@ Conventions: indices < 65536, flags < 256 (octets), times are reduced mod 2^48
 -/
 namespace Dnp3
 
-inductive PtType where | binary | analog
-deriving DecidableEq, Repr, Inhabited
+/-- the point types: `Gen.DbT.Ty`, generated from `enum Event` -/
+abbrev PtType := Gen.DbT.Ty
+
+namespace PtType
+export Gen.DbT.Ty (binary doubleBitBinary binaryOutputStatus counter frozenCounter analog analogOutputStatus octetString)
+end PtType
 
 /-- one object header of a READ request: `a`,`b` = start,stop for qualifiers 0x00/0x01,
     `a` = count for 0x07/0x08, unused for 0x06 -/
@@ -54,6 +87,55 @@ inductive UpdInfo where
 deriving DecidableEq, Repr, Inhabited
 
 namespace DbM
+
+/-! ## one value per point type -/
+
+structure TyVec (α : Type) where
+  binary : α
+  doubleBitBinary : α
+  binaryOutputStatus : α
+  counter : α
+  frozenCounter : α
+  analog : α
+  analogOutputStatus : α
+  octetString : α
+deriving DecidableEq, Repr, Inhabited
+
+def TyVec.get {α : Type} (v : TyVec α) : PtType → α
+  | .binary => v.binary
+  | .doubleBitBinary => v.doubleBitBinary
+  | .binaryOutputStatus => v.binaryOutputStatus
+  | .counter => v.counter
+  | .frozenCounter => v.frozenCounter
+  | .analog => v.analog
+  | .analogOutputStatus => v.analogOutputStatus
+  | .octetString => v.octetString
+
+def TyVec.set {α : Type} (v : TyVec α) (t : PtType) (x : α) : TyVec α :=
+  match t with
+  | .binary => { v with binary := x }
+  | .doubleBitBinary => { v with doubleBitBinary := x }
+  | .binaryOutputStatus => { v with binaryOutputStatus := x }
+  | .counter => { v with counter := x }
+  | .frozenCounter => { v with frozenCounter := x }
+  | .analog => { v with analog := x }
+  | .analogOutputStatus => { v with analogOutputStatus := x }
+  | .octetString => { v with octetString := x }
+
+def TyVec.ofFn {α : Type} (f : PtType → α) : TyVec α :=
+  ⟨f .binary, f .doubleBitBinary, f .binaryOutputStatus, f .counter, f .frozenCounter, f .analog,
+   f .analogOutputStatus, f .octetString⟩
+
+def TyVec.const {α : Type} (x : α) : TyVec α := TyVec.ofFn fun _ => x
+
+/-- position of the type in `enum Event` -/
+def tyIdx : PtType → Nat
+  | .binary => 0 | .doubleBitBinary => 1 | .binaryOutputStatus => 2 | .counter => 3
+  | .frozenCounter => 4 | .analog => 5 | .analogOutputStatus => 6 | .octetString => 7
+
+def tyOfIdx : Nat → PtType
+  | 0 => .binary | 1 => .doubleBitBinary | 2 => .binaryOutputStatus | 3 => .counter
+  | 4 => .frozenCounter | 5 => .analog | 6 => .analogOutputStatus | _ => .octetString
 
 /-! ## little-endian / two's complement / IEEE-754 helpers -/
 
@@ -103,20 +185,24 @@ def f32Bits (v : Int) : Nat × Bool :=
 
 /-! ## measurements, events, points -/
 
-/-- a stored measurement: `value` is 0/1 for a binary input; `time` = `Some(Time::Synchronized t)`
-    for every update made through `Db.update`, and 0 for the `Default` value (whose `None` time is
-    never encoded by any static variation) -/
+/-- a stored measurement.  `value`: 0/1 for a binary input / output status, 0..3 for a double-bit input,
+    the u32 of a counter, the integer an analog carries as `f64`; `octets`: an octet string's content
+    (its `value`, `flags`, `time` are unused).  `time` = `Some(Time::Synchronized t)` for every update,
+    and 0 for the `Default` value (whose unsynchronized zero time only g21v5 / g21v6 encode) -/
 structure Meas where
   value : Int := 0
   flags : Nat := 2          -- `Flags::RESTART`, the constructor default
   time : Nat := 0
+  octets : List Nat := []
 deriving DecidableEq, Repr, Inhabited
 
 /-- `WireFlags::get_wire_flags` -/
 def Meas.wire (t : PtType) (m : Meas) : Nat :=
   match t with
   | .binary => m.flags % 128 + (if m.value ≠ 0 then 128 else 0)
-  | .analog => m.flags
+  | .binaryOutputStatus => m.flags % 128 + (if m.value ≠ 0 then 128 else 0)
+  | .doubleBitBinary => m.flags % 64 + 64 * (m.value.toNat % 4)
+  | _ => m.flags
 
 def overRange (f : Nat) (o : Bool) : Nat := if o then f ||| 0x20 else f
 
@@ -134,46 +220,65 @@ structure EvRec where
   st : EvState := .unselected
 deriving DecidableEq, Repr, Inhabited
 
-/-- `ClassCounter` + the two relevant fields of `TypeCounter` -/
+/-- the variation octet the record is written with: the selected variation, or an octet string's
+    length (`OctetStringLength(evt.len())`) -/
+def EvRec.wvar (r : EvRec) : Nat :=
+  match r.ty with
+  | .octetString => r.m.octets.length
+  | _ => r.selVar
+
+/-- `ClassCounter` + `TypeCounter` -/
 structure Counters where
   c1 : Nat := 0
   c2 : Nat := 0
   c3 : Nat := 0
-  bin : Nat := 0
-  an : Nat := 0
+  types : TyVec Nat := TyVec.const 0
 deriving DecidableEq, Repr, Inhabited
 
 def Counters.cls (c : Counters) : Nat → Nat
   | 1 => c.c1 | 2 => c.c2 | 3 => c.c3 | _ => 0
-def Counters.ty (c : Counters) : PtType → Nat
-  | .binary => c.bin | .analog => c.an
+def Counters.ty (c : Counters) (t : PtType) : Nat := c.types.get t
 
 def Counters.incCls (c : Counters) : Nat → Counters
   | 1 => { c with c1 := c.c1 + 1 } | 2 => { c with c2 := c.c2 + 1 } | 3 => { c with c3 := c.c3 + 1 } | _ => c
 def Counters.decCls (c : Counters) : Nat → Counters
   | 1 => { c with c1 := c.c1 - 1 } | 2 => { c with c2 := c.c2 - 1 } | 3 => { c with c3 := c.c3 - 1 } | _ => c
-def Counters.incTy (c : Counters) : PtType → Counters
-  | .binary => { c with bin := c.bin + 1 } | .analog => { c with an := c.an + 1 }
-def Counters.decTy (c : Counters) : PtType → Counters
-  | .binary => { c with bin := c.bin - 1 } | .analog => { c with an := c.an - 1 }
-/-- `Counters::increment(record)` -/
-def Counters.inc (c : Counters) (r : EvRec) : Counters := (c.incTy r.ty).incCls r.cls
-/-- `Counters::decrement(record)` -/
-def Counters.dec (c : Counters) (r : EvRec) : Counters := (c.decCls r.cls).decTy r.ty
+def Counters.incTy (c : Counters) (t : PtType) : Counters := { c with types := c.types.set t (c.types.get t + 1) }
+def Counters.decTy (c : Counters) (t : PtType) : Counters := { c with types := c.types.set t (c.types.get t - 1) }
+/-- `Counters::increment(record)`: `TypeCounter::modify` picks the slot -/
+def Counters.inc (c : Counters) (r : EvRec) : Counters := (c.incTy (Gen.DbT.typeCounterModify r.ty)).incCls r.cls
+/-- `Counters::decrement(record)`: its own `match record.event` picks the slot -/
+def Counters.dec (c : Counters) (r : EvRec) : Counters := (c.decCls r.cls).decTy (Gen.DbT.countersDecrement r.ty)
 
 structure Point where
   current : Meas := {}
   selected : Meas := {}
   lastEvent : Meas := {}
   cls : Nat := 0
+  /-- configured static variation (`PointConfig::s_var`; unused for octet strings) -/
+  svar : Nat := 0
+  /-- configured event variation (`PointConfig::e_var`) -/
+  evar : Nat := 0
+  /-- the detector's dead-band (`CounterConfig::deadband` … `AnalogOutputStatusConfig::deadband`; the
+      binary types and octet strings have none) -/
+  deadband : Nat := 0
 deriving DecidableEq, Repr, Inhabited
 
-/-- kinds of entries of the static selection queue (`SpecificVariation`) -/
+/-- `EventMode` -/
+inductive EvMode where | detect | force | suppress
+deriving DecidableEq, Repr, Inhabited
+
+/-- `UpdateOptions` (`Default` = `detect_event()`: update the static value, detect the event) -/
+structure UpdOpts where
+  updateStatic : Bool := true
+  mode : EvMode := .detect
+deriving DecidableEq, Repr, Inhabited
+
+/-- kinds of entries of the static selection queue (`SpecificVariation`): the variant named like the
+    type with the requested variation, or the analog dead-bands (g34) -/
 inductive SelKind where
-  | binary (var : Option Nat)     -- g1 : requested variation 1|2
-  | analog (var : Option Nat)     -- g30: requested variation 1..6
-  | deadband (var : Option Nat)   -- g34: requested variation 1..3
-  | other                         -- a point type with no points configured: writes nothing
+  | typed (t : PtType) (var : Option Nat)
+  | deadband (var : Option Nat)
 deriving DecidableEq, Repr, Inhabited
 
 structure SelItem where
@@ -182,11 +287,16 @@ structure SelItem where
   stop : Nat
 deriving DecidableEq, Repr, Inhabited
 
+abbrev PMap := List (Nat × Point)
+
 end DbM
 open DbM
 
 structure Db where
-  evMax : Nat := 0
+  /-- `EventBufferConfig`: maximum number of events per type -/
+  evCfg : TyVec Nat := TyVec.const 0
+  /-- `ClassZeroConfig` -/
+  czero : TyVec Bool := TyVec.ofFn Gen.DbT.classZeroDefault
   selCap : Nat := 64
   -- event buffer
   events : List EvRec := []
@@ -194,9 +304,8 @@ structure Db where
   written : Counters := {}
   overflown : Bool := false
   next : Nat := 0
-  -- static database: ascending by index, indices unique
-  bins : List (Nat × Point) := []
-  ans : List (Nat × Point) := []
+  -- static database: per type, ascending by index, indices unique
+  maps : TyVec PMap := TyVec.const []
   queue : List SelItem := []
   /-- pending device-attribute selections (`attrs::Selection`, at most 32); no attribute is ever
       defined in the modelled configuration, so they write nothing -/
@@ -207,23 +316,44 @@ namespace DbM
 /-- `OutstationConfig::DEFAULT_MAX_READ_REQUEST_HEADERS` -/
 def defaultMaxReadHeaders : Nat := 64
 
+/-- the per-type maxima a number stands for: eight base-65536 digits in the order of `Ty` -/
+def evCfgOfNat (n : Nat) : TyVec Nat := TyVec.ofFn fun t => n / 65536 ^ tyIdx t % 65536
+
+/-- … and the number a configuration (maxima < 65536) is written as -/
+def evCfgToNat (c : TyVec Nat) : Nat :=
+  Gen.DbT.Ty.all.foldl (fun acc t => acc + c.get t % 65536 * 65536 ^ tyIdx t) 0
+
+/-- the ninth digit flips the default `ClassZeroConfig`, bit i = the i-th type -/
+def czOfNat (n : Nat) : TyVec Bool :=
+  TyVec.ofFn fun t => Gen.DbT.classZeroDefault t != (n / 65536 ^ 8 / 2 ^ tyIdx t % 2 == 1)
+
+/-- "binary inputs and analog inputs `n` events each, nothing else" (the configuration of the
+    engines before the other types were modelled) -/
+def legacyEv (n : Nat) : Nat := n % 65536 + n % 65536 * 65536 ^ 5
+
 end DbM
 
-def Db.new (evMax : Nat) (maxReadSel : Option Nat) : Db :=
-  { evMax := evMax
+/-- `Database::new(max_read_selection, class_zero, event_config)` -/
+def Db.newCfg (ev : TyVec Nat) (cz : TyVec Bool) (maxReadSel : Option Nat) : Db :=
+  { evCfg := ev
+    czero := cz
     selCap := match maxReadSel with
       | some n => max n defaultMaxReadHeaders
       | none => defaultMaxReadHeaders }
 
+/-- the same, the configuration written as a number (`DbM.evCfgOfNat`, `DbM.czOfNat`) -/
+def Db.new (evMax : Nat) (maxReadSel : Option Nat) : Db :=
+  Db.newCfg (evCfgOfNat evMax) (czOfNat evMax) maxReadSel
+
 /-! ## ordered point maps (`BTreeMap<u16, Point<T>>`) -/
 
 namespace DbM
-def pmLookup : List (Nat × Point) → Nat → Option Point
+def pmLookup : PMap → Nat → Option Point
   | [], _ => none
   | (i, p) :: rest, k => if i = k then some p else if k < i then none else pmLookup rest k
 
 /-- insert a new point keeping ascending order; `none` if the index exists -/
-def pmInsert : List (Nat × Point) → Nat → Point → Option (List (Nat × Point))
+def pmInsert : PMap → Nat → Point → Option PMap
   | [], k, p => some [(k, p)]
   | (i, q) :: rest, k, p =>
     if i = k then none
@@ -232,28 +362,55 @@ def pmInsert : List (Nat × Point) → Nat → Point → Option (List (Nat × Po
       | some r => some ((i, q) :: r)
       | none => none
 
-def pmSet : List (Nat × Point) → Nat → Point → List (Nat × Point)
+def pmSet : PMap → Nat → Point → PMap
   | [], _, _ => []
   | (i, q) :: rest, k, p => if i = k then (i, p) :: rest else (i, q) :: pmSet rest k p
 
 end DbM
 
-def Db.map (db : Db) : PtType → List (Nat × Point)
-  | .binary => db.bins | .analog => db.ans
-def Db.setMap (db : Db) (t : PtType) (m : List (Nat × Point)) : Db :=
-  match t with
-  | .binary => { db with bins := m } | .analog => { db with ans := m }
+def Db.map (db : Db) (t : PtType) : PMap := db.maps.get t
+def Db.setMap (db : Db) (t : PtType) (m : PMap) : Db := { db with maps := db.maps.set t m }
+
+/-- the binary-input and analog-input maps under their former names -/
+abbrev Db.bins (db : Db) : PMap := db.maps.binary
+abbrev Db.ans (db : Db) : PMap := db.maps.analog
+
+/-- `T::get_map(&self.static_db)` / `T::get_mut_map` (`impl Updatable for T`) -/
+def Db.getMap (db : Db) (t : PtType) : PMap := db.map (Gen.DbT.updatable t).getMap
+def Db.setMutMap (db : Db) (t : PtType) (m : PMap) : Db := db.setMap (Gen.DbT.updatable t).getMutMap m
+def Db.getMutMap (db : Db) (t : PtType) : PMap := db.map (Gen.DbT.updatable t).getMutMap
 
 namespace DbM
 def normClass (c : Nat) : Nat := if c = 1 ∨ c = 2 ∨ c = 3 then c else 0
 
+/-- `T::default()` -/
+def defaultMeas : PtType → Meas
+  | .doubleBitBinary => { value := 3 }          -- `DoubleBit::Indeterminate`
+  | .octetString => { flags := 0, octets := [0] }
+  | _ => {}
+
+/-- the variations `Db.add` configures: static g1v2 / g30v1 and event g2v1 / g32v1 for binary and analog
+    inputs (as the engines always did), the library's `Default` configuration for the other types -/
+def addStaticVar : PtType → Nat
+  | .binary => 2 | .octetString => 0 | _ => 1
+def addEventVar : PtType → Nat
+  | .binaryOutputStatus => 2 | .octetString => 0 | _ => 1
+
 end DbM
 
-/-- `Database::add` (class 0 = no event class) -/
-def Db.add (db : Db) (t : PtType) (idx cls : Nat) : Db × Bool :=
-  match pmInsert (db.map t) idx { cls := normClass cls } with
-  | some m => (db.setMap t m, true)
+/-- `Database::add` with the point's configuration (class 0 = no event class) -/
+def Db.addCfg (db : Db) (t : PtType) (idx cls svar evar deadband : Nat) : Db × Bool :=
+  match pmInsert (db.getMutMap t) idx
+      { current := defaultMeas t, selected := defaultMeas t, lastEvent := defaultMeas t,
+        cls := normClass cls, svar := svar, evar := evar, deadband := deadband } with
+  | some m => (db.setMutMap t m, true)
   | none => (db, false)
+
+/-- `Database::add` with the configuration `addStaticVar` / `addEventVar`; the session model's entry
+    point (`OInput.add`): an index ≥ 65536 carries the point's dead-band, `idx / 65536`, in front of the
+    index proper -/
+def Db.add (db : Db) (t : PtType) (idx cls : Nat) : Db × Bool :=
+  db.addCfg t (idx % 65536) cls (addStaticVar t) (addEventVar t) (idx / 65536)
 
 /-! ## event buffer -/
 
@@ -273,60 +430,128 @@ deriving DecidableEq, Repr, Inhabited
 
 end DbM
 
-/-- `EventBuffer::insert`; a discarded record that is `Written` is taken out of `written` too
+/-- `EventBuffer::insert::<T>`, every `T::…` call through the generated `Insertable` row of `t`;
+    a discarded record that is `Written` is taken out of `written` too
     (type counter, then class counter — the order of the Rust statements) -/
 def Db.insert (db : Db) (idx cls : Nat) (t : PtType) (m : Meas) (defVar : Nat) : Db × InsertResult :=
-  if db.evMax = 0 then (db, .typeMaxIsZero) else
+  let row := Gen.DbT.insertable t
+  let max := db.evCfg.get row.max
+  if max = 0 then (db, .typeMaxIsZero) else
   let id := db.next
-  let mk : EvRec := { id := id, index := idx, cls := cls, ty := t, m := m, defVar := defVar, selVar := defVar }
-  if db.total.ty t = db.evMax then
-    match removeFirstTy t db.events with
+  let mk : EvRec := { id := id, index := idx, cls := cls, ty := row.create, m := m, defVar := defVar, selVar := defVar }
+  if db.total.ty row.count = max then
+    match removeFirstTy row.isType db.events with
     | some (d, rest) =>
       ({ db with next := id + 1, events := rest ++ [mk]
-                 total := (((db.total.decTy t).decCls d.cls).incCls cls).incTy t
-                 written := if d.st = .written then (db.written.decTy t).decCls d.cls else db.written
+                 total := (((db.total.decTy row.dec).decCls d.cls).incCls cls).incTy row.inc
+                 written := if d.st = .written then (db.written.decTy row.dec).decCls d.cls else db.written
                  overflown := true },
        .overflow id d.id)
     | none =>
-      ({ db with next := id + 1, events := db.events ++ [mk], total := (db.total.incCls cls).incTy t }, .ok id)
+      ({ db with next := id + 1, events := db.events ++ [mk], total := (db.total.incCls cls).incTy row.inc }, .ok id)
   else
-    ({ db with next := id + 1, events := db.events ++ [mk], total := (db.total.incCls cls).incTy t }, .ok id)
+    ({ db with next := id + 1, events := db.events ++ [mk], total := (db.total.incCls cls).incTy row.inc }, .ok id)
 
 namespace DbM
-/-- `EventDetector::is_event` (flags detector for binaries, dead-band 0 for analogs) -/
-def isEvent (t : PtType) (last new : Meas) : Bool :=
-  last.wire t != new.wire t || (t == .analog && last.value != new.value)
+/-- `EventDetector::is_event`: `FlagsDetector`; `Deadband` (the flags differ, or the values differ by more
+    than the dead-band: `Deadband::exceeded`, |lhs − rhs| > deadband); `OctetStringDetector` -/
+def isEvent (t : PtType) (deadband : Nat) (last new : Meas) : Bool :=
+  match Gen.DbT.detector t with
+  | .flags => last.wire t != new.wire t
+  | .deadband => last.wire t != new.wire t || decide ((new.value - last.value).natAbs > deadband)
+  | .value => last.octets != new.octets
 
-def defaultEventVar : PtType → Nat
-  | .binary => 1 | .analog => 1
-
-end DbM
-
-namespace DbM
-/-- the measurement an update carries: `BinaryInput::new(value != 0, flags, Synchronized(time))` /
-    `AnalogInput::new(value as f64, ..)`; `Timestamp::new` keeps 48 bits -/
+/-- the measurement an update carries: `BinaryInput::new(value != 0, flags, Synchronized(time))`,
+    `DoubleBitBinaryInput::new(DoubleBit of value % 4, ..)`, `Counter::new(value as u32, ..)`,
+    `AnalogInput::new(value as f64, ..)`, …; `Timestamp::new` keeps 48 bits -/
 def mkMeas (t : PtType) (value : Int) (flags time : Nat) : Meas :=
   { value := match t with
       | .binary => if value ≠ 0 then 1 else 0
+      | .binaryOutputStatus => if value ≠ 0 then 1 else 0
+      | .doubleBitBinary => value % 4
+      | .counter => value % 4294967296
+      | .frozenCounter => value % 4294967296
       | .analog => value
+      | .analogOutputStatus => value
+      | .octetString => 0
     flags := flags, time := time % 2 ^ 48 }
+
+/-- `OctetString::new(octets)` -/
+def mkOctets (octets : List Nat) : Meas := { flags := 0, octets := octets }
+
+/-- the octets a number stands for: its base-256 digits below the leading 1, most significant first -/
+def octetsOfNat : Nat → Nat → List Nat → List Nat
+  | 0, _, acc => acc
+  | fuel + 1, n, acc => if n ≤ 1 then acc else octetsOfNat fuel (n / 256) (n % 256 :: acc)
+
+def natOfOctets (bs : List Nat) : Nat := bs.foldl (fun acc b => acc * 256 + b % 256) 1
+
+/-- the update options number `k`: 0..2 = Detect / Force / Suppress updating the static value, 3..5 = the
+    same without (`update_static = false`) -/
+def optsOfCode (k : Nat) : UpdOpts :=
+  { updateStatic := k % 6 < 3
+    mode := match k % 3 with | 0 => .detect | 1 => .force | _ => .suppress }
+
+def codeOfOpts (o : UpdOpts) : Nat :=
+  (match o.mode with | .detect => 0 | .force => 1 | .suppress => 2) + (if o.updateStatic then 0 else 3)
+
+/-- what `Db.update t idx value flags time` addresses (see the file header): below 65536 point `idx` of
+    `t` with the default options; else `idx / 65536 = 16 * options + type number + 1` -/
+def decodeUpd (t : PtType) (idx : Nat) (value : Int) (flags time : Nat) : PtType × Nat × Meas × UpdOpts :=
+  if idx < 65536 then (t, idx, mkMeas t value flags time, {})
+  else
+    let t' := tyOfIdx (idx / 65536 % 16 - 1)
+    (t', idx % 65536,
+     (match t' with
+      | .octetString => mkOctets (octetsOfNat 300 value.toNat [])
+      | _ => mkMeas t' value flags time),
+     optsOfCode (idx / 65536 / 16))
+
+/-- the index under which `Db.update` reaches point `idx` of type `t` (default options) -/
+def encodeIdx (t : PtType) (idx : Nat) : Nat := (tyIdx t + 1) * 65536 + idx % 65536
+
+/-- … with update options -/
+def encodeIdxOpts (t : PtType) (idx : Nat) (o : UpdOpts) : Nat :=
+  (16 * codeOfOpts o + tyIdx t + 1) * 65536 + idx % 65536
+
 end DbM
 
-/-- `Database::update2` with `UpdateOptions::detect_event()` -/
-def Db.update (db : Db) (t : PtType) (idx : Nat) (value : Int) (flags time : Nat) : Db × UpdInfo :=
-  match pmLookup (db.map t) idx with
+namespace DbM
+/-- does `StaticDatabase::update` produce an event for the point (and move `last_event`)?
+    `Suppress`: never; `Force`: always; `Detect`: when the detector says so, comparing the new value with
+    the value LAST REPORTED as an event -/
+def wantsEvent (t : PtType) (p : Point) (m : Meas) : EvMode → Bool
+  | .suppress => false
+  | .force => true
+  | .detect => isEvent t p.deadband p.lastEvent m
+
+end DbM
+
+/-- `Database::update2::<T>(index, value, options)` = `StaticDatabase::update` + `EventBuffer::insert`:
+    the static value is replaced if `update_static`; `last_event` moves exactly when an event is wanted;
+    the event is recorded if the point has a class and the type's buffer is not switched off -/
+def Db.updateOpt (db : Db) (t : PtType) (idx : Nat) (m : Meas) (o : UpdOpts) : Db × UpdInfo :=
+  match pmLookup (db.getMutMap t) idx with
   | none => (db, .noPoint)
   | some p =>
-    let m : Meas := mkMeas t value flags time
-    if isEvent t p.lastEvent m then
-      let db1 := db.setMap t (pmSet (db.map t) idx { p with current := m, lastEvent := m })
+    let p1 : Point := if o.updateStatic then { p with current := m } else p
+    if wantsEvent t p m o.mode then
+      let db1 := db.setMutMap t (pmSet (db.getMutMap t) idx { p1 with lastEvent := m })
       if p.cls = 0 then (db1, .noEvent) else
-      match db1.insert idx p.cls t m (defaultEventVar t) with
+      match db1.insert idx p.cls t m p.evar with
       | (db2, .typeMaxIsZero) => (db2, .noEvent)
       | (db2, .ok id) => (db2, .created id)
       | (db2, .overflow c d) => (db2, .overflow c d)
     else
-      (db.setMap t (pmSet (db.map t) idx { p with current := m }), .noEvent)
+      (db.setMutMap t (pmSet (db.getMutMap t) idx p1), .noEvent)
+
+/-- `Database::update2::<T>` with `UpdateOptions::detect_event()` -/
+def Db.updateM (db : Db) (t : PtType) (idx : Nat) (m : Meas) : Db × UpdInfo := db.updateOpt t idx m {}
+
+/-- the session model's entry point (`TxnItem`), see `DbM.decodeUpd` -/
+def Db.update (db : Db) (t : PtType) (idx : Nat) (value : Int) (flags time : Nat) : Db × UpdInfo :=
+  db.updateOpt (decodeUpd t idx value flags time).1 (decodeUpd t idx value flags time).2.1
+    (decodeUpd t idx value flags time).2.2.1 (decodeUpd t idx value flags time).2.2.2
 
 namespace DbM
 /-- `EventBuffer::select`: the first `limit` `Unselected` records satisfying `p` become `Selected`
@@ -344,18 +569,27 @@ def selectEvents (p : EvRec → Bool) (var : Option Nat) : Option Nat → List E
 
 /-! ### event writer (`EventWriter`, `write_fn.rs`) -/
 
-/-- encoded size of one event object (without the 2-octet index prefix) -/
+/-- encoded size of one event object (without the 2-octet index prefix); an octet string's
+    variation is its length -/
 def evObjSize : PtType → Nat → Nat
   | .binary, 1 => 1 | .binary, 2 => 7 | .binary, 3 => 3
+  | .doubleBitBinary, 1 => 1 | .doubleBitBinary, 2 => 7 | .doubleBitBinary, 3 => 3
+  | .binaryOutputStatus, 1 => 1 | .binaryOutputStatus, 2 => 7
+  | .counter, 1 => 5 | .counter, 2 => 3 | .counter, 5 => 11 | .counter, 6 => 9
+  | .frozenCounter, 1 => 5 | .frozenCounter, 2 => 3 | .frozenCounter, 5 => 11 | .frozenCounter, 6 => 9
   | .analog, 1 => 5 | .analog, 2 => 3 | .analog, 3 => 11 | .analog, 4 => 9
   | .analog, 5 => 5 | .analog, 6 => 9 | .analog, 7 => 11 | .analog, 8 => 15
+  | .analogOutputStatus, 1 => 5 | .analogOutputStatus, 2 => 3 | .analogOutputStatus, 3 => 11 | .analogOutputStatus, 4 => 9
+  | .analogOutputStatus, 5 => 5 | .analogOutputStatus, 6 => 9 | .analogOutputStatus, 7 => 11 | .analogOutputStatus, 8 => 15
+  | .octetString, n => n
   | _, _ => 0
 
 def evGroup : PtType → Nat
-  | .binary => 2 | .analog => 32
+  | .binary => 2 | .doubleBitBinary => 4 | .binaryOutputStatus => 11 | .counter => 22
+  | .frozenCounter => 23 | .analog => 32 | .analogOutputStatus => 42 | .octetString => 111
 
-/-- `EventVariation::uses_cto` -/
-def usesCto (t : PtType) (v : Nat) : Bool := t == .binary && v == 3
+/-- `EventVariation::uses_cto` (g2v3, g4v3) -/
+def usesCto (t : PtType) (v : Nat) : Bool := (t == .binary || t == .doubleBitBinary) && v == 3
 
 /-- `HeaderState` + `HeaderType` of the event writer -/
 structure EvCur where
@@ -365,22 +599,23 @@ structure EvCur where
   cto : Nat
 deriving DecidableEq, Repr, Inhabited
 
-def EvCur.start (r : EvRec) : EvCur := { ty := r.ty, var := r.selVar, count := 1, cto := r.m.time }
+def EvCur.start (r : EvRec) : EvCur := { ty := r.ty, var := r.wvar, count := 1, cto := r.m.time }
 def EvCur.inc (c : EvCur) : EvCur := { c with count := c.count + 1 }
 
-/-- does `r` go under the header in progress? (same type, same variation, count below u16::MAX,
-    and for g2v3 a relative time that fits: all times are `Synchronized`) -/
+/-- does `r` go under the header in progress? (same type, same variation — for an octet string: same
+    length —, count below u16::MAX, and for g2v3 / g4v3 a relative time that fits: all times are
+    `Synchronized`) -/
 def evContinues (c : EvCur) (r : EvRec) : Bool :=
-  c.ty == r.ty && c.var == r.selVar && c.count != 65535 &&
-  (!usesCto r.ty r.selVar || (c.cto ≤ r.m.time && r.m.time - c.cto ≤ 65535))
+  c.ty == r.ty && c.var == r.wvar && c.count != 65535 &&
+  (!usesCto r.ty r.wvar || (c.cto ≤ r.m.time && r.m.time - c.cto ≤ 65535))
 
 /-- octets needed by `r` given the writer state -/
 def evCost (cur : Option EvCur) (r : EvRec) : Nat :=
   match cur with
   | some c =>
-    if evContinues c r then 2 + evObjSize r.ty r.selVar
-    else (if usesCto r.ty r.selVar then 10 else 0) + 5 + 2 + evObjSize r.ty r.selVar
-  | none => (if usesCto r.ty r.selVar then 10 else 0) + 5 + 2 + evObjSize r.ty r.selVar
+    if evContinues c r then 2 + evObjSize r.ty r.wvar
+    else (if usesCto r.ty r.wvar then 10 else 0) + 5 + 2 + evObjSize r.ty r.wvar
+  | none => (if usesCto r.ty r.wvar then 10 else 0) + 5 + 2 + evObjSize r.ty r.wvar
 
 def evNext (cur : Option EvCur) (r : EvRec) : EvCur :=
   match cur with
@@ -401,20 +636,54 @@ def evLoop (cap : Nat) : List EvRec → Nat → Option EvCur → List EvRec × L
       let (rs', w, c) := evLoop cap rs used cur
       (r :: rs', w, c)
 
-/-- the object octets of one event under header state `c` (`c.cto` = the header's time) -/
+/-! value encodings shared by the event and the static variations -/
+
+/-- flags (+ OVER_RANGE) and a saturated i32 / i16 (`to_i32`, `to_i16`) -/
+def encI32 (m : Meas) : List Nat := let (v, o) := satInt 32 m.value; [overRange m.flags o] ++ le32 (twos 32 v)
+def encI16 (m : Meas) : List Nat := let (v, o) := satInt 16 m.value; [overRange m.flags o] ++ le16 (twos 16 v)
+/-- flags (+ OVER_RANGE) and an f32 (`to_f32`) -/
+def encF32 (m : Meas) : List Nat := let (b, o) := f32Bits m.value; [overRange m.flags o] ++ le32 b
+def encF64 (m : Meas) : List Nat := [m.flags] ++ le64 (f64Bits m.value)
+/-- flags and the u32 / the u32 truncated to u16 (`self.value as u16`) -/
+def encU32 (m : Meas) : List Nat := [m.flags] ++ le32 m.value.toNat
+def encU16 (m : Meas) : List Nat := [m.flags] ++ le16 (m.value.toNat % 65536)
+
+/-- the object octets of one event under a header whose common time is `cto` -/
 def evObj (cto : Nat) (r : EvRec) : List Nat :=
-  match r.ty, r.selVar with
+  match r.ty, r.wvar with
   | .binary, 1 => [r.m.wire .binary]
   | .binary, 2 => [r.m.wire .binary] ++ le48 r.m.time
   | .binary, 3 => [r.m.wire .binary] ++ le16 (r.m.time - cto)
-  | .analog, 1 => let (v, o) := satInt 32 r.m.value; [overRange r.m.flags o] ++ le32 (twos 32 v)
-  | .analog, 2 => let (v, o) := satInt 16 r.m.value; [overRange r.m.flags o] ++ le16 (twos 16 v)
-  | .analog, 3 => let (v, o) := satInt 32 r.m.value; [overRange r.m.flags o] ++ le32 (twos 32 v) ++ le48 r.m.time
-  | .analog, 4 => let (v, o) := satInt 16 r.m.value; [overRange r.m.flags o] ++ le16 (twos 16 v) ++ le48 r.m.time
-  | .analog, 5 => let (b, o) := f32Bits r.m.value; [overRange r.m.flags o] ++ le32 b
-  | .analog, 6 => [r.m.flags] ++ le64 (f64Bits r.m.value)
-  | .analog, 7 => let (b, o) := f32Bits r.m.value; [overRange r.m.flags o] ++ le32 b ++ le48 r.m.time
-  | .analog, 8 => [r.m.flags] ++ le64 (f64Bits r.m.value) ++ le48 r.m.time
+  | .doubleBitBinary, 1 => [r.m.wire .doubleBitBinary]
+  | .doubleBitBinary, 2 => [r.m.wire .doubleBitBinary] ++ le48 r.m.time
+  | .doubleBitBinary, 3 => [r.m.wire .doubleBitBinary] ++ le16 (r.m.time - cto)
+  | .binaryOutputStatus, 1 => [r.m.wire .binaryOutputStatus]
+  | .binaryOutputStatus, 2 => [r.m.wire .binaryOutputStatus] ++ le48 r.m.time
+  | .counter, 1 => encU32 r.m
+  | .counter, 2 => encU16 r.m
+  | .counter, 5 => encU32 r.m ++ le48 r.m.time
+  | .counter, 6 => encU16 r.m ++ le48 r.m.time
+  | .frozenCounter, 1 => encU32 r.m
+  | .frozenCounter, 2 => encU16 r.m
+  | .frozenCounter, 5 => encU32 r.m ++ le48 r.m.time
+  | .frozenCounter, 6 => encU16 r.m ++ le48 r.m.time
+  | .analog, 1 => encI32 r.m
+  | .analog, 2 => encI16 r.m
+  | .analog, 3 => encI32 r.m ++ le48 r.m.time
+  | .analog, 4 => encI16 r.m ++ le48 r.m.time
+  | .analog, 5 => encF32 r.m
+  | .analog, 6 => encF64 r.m
+  | .analog, 7 => encF32 r.m ++ le48 r.m.time
+  | .analog, 8 => encF64 r.m ++ le48 r.m.time
+  | .analogOutputStatus, 1 => encI32 r.m
+  | .analogOutputStatus, 2 => encI16 r.m
+  | .analogOutputStatus, 3 => encI32 r.m ++ le48 r.m.time
+  | .analogOutputStatus, 4 => encI16 r.m ++ le48 r.m.time
+  | .analogOutputStatus, 5 => encF32 r.m
+  | .analogOutputStatus, 6 => encF64 r.m
+  | .analogOutputStatus, 7 => encF32 r.m ++ le48 r.m.time
+  | .analogOutputStatus, 8 => encF64 r.m ++ le48 r.m.time
+  | .octetString, _ => r.m.octets
   | _, _ => []
 
 /-- number of records after a header's first that stay under it -/
@@ -426,8 +695,8 @@ def evRunLen (c : EvCur) : List EvRec → Nat
 def ctoHeader (time : Nat) : List Nat := [51, 1, 0x07, 1] ++ le48 time
 
 def evHeader (r : EvRec) (count : Nat) : List Nat :=
-  (if usesCto r.ty r.selVar then ctoHeader r.m.time else []) ++
-  [evGroup r.ty, r.selVar, 0x28] ++ le16 count
+  (if usesCto r.ty r.wvar then ctoHeader r.m.time else []) ++
+  [evGroup r.ty, r.wvar, 0x28] ++ le16 count
 
 /-- the octets `write_events` produces for the records `rs` written in this order -/
 def encodeEvents : Option EvCur → List EvRec → List Nat
@@ -451,7 +720,8 @@ def Db.writeEvents (db : Db) (cap : Nat) : Db × List EvRec × Bool :=
 /-! ## static database -/
 
 namespace DbM
-/-- one static object to be written: index, (group, variation) after `promote`, value -/
+/-- one static object to be written: index, (group, variation) after `promote` (an octet string's
+    variation is its length), value -/
 structure SObj where
   idx : Nat
   g : Nat
@@ -459,34 +729,68 @@ structure SObj where
   m : Meas
 deriving DecidableEq, Repr, Inhabited
 
-/-- packed single-bit variation? (`WriteType::Bits`) -/
-def isBits (g v : Nat) : Bool := g == 1 && v == 1
+def staticGroup : PtType → Nat
+  | .binary => 1 | .doubleBitBinary => 3 | .binaryOutputStatus => 10 | .counter => 20
+  | .frozenCounter => 21 | .analog => 30 | .analogOutputStatus => 40 | .octetString => 110
+
+/-- bits per value of a packed variation (`WriteType::Bits` g1v1 / g10v1, `WriteType::DoubleBits`
+    g3v1); 0 = not packed -/
+def packWidth (g v : Nat) : Nat :=
+  if v = 1 then (if g = 1 ∨ g = 10 then 1 else if g = 3 then 2 else 0) else 0
+
+/-- packed variation? -/
+def isBits (g v : Nat) : Bool := packWidth g v != 0
+
+/-- values per octet of a packed variation (`BitState::next`: 8 single bits, 4 double bits) -/
+def perOctet (g v : Nat) : Nat := if packWidth g v = 2 then 4 else 8
 
 def stObjSize : Nat → Nat → Nat
   | 1, 2 => 1
+  | 3, 2 => 1
+  | 10, 2 => 1
+  | 20, 1 => 5 | 20, 2 => 3 | 20, 5 => 4 | 20, 6 => 2
+  | 21, 1 => 5 | 21, 2 => 3 | 21, 5 => 11 | 21, 6 => 9 | 21, 9 => 4 | 21, 10 => 2
   | 30, 1 => 5 | 30, 2 => 3 | 30, 3 => 4 | 30, 4 => 2 | 30, 5 => 5 | 30, 6 => 9
   | 34, 1 => 2 | 34, 2 => 4 | 34, 3 => 4
+  | 40, 1 => 5 | 40, 2 => 3 | 40, 3 => 5 | 40, 4 => 9
+  | 110, n => n
   | _, _ => 0
 
-/-- `StaticVariation::promote` for g1v1 -/
-def promoteBin (v : Nat) (m : Meas) : Nat :=
-  if v = 1 then (if m.flags % 128 = 1 then 1 else 2) else v
+/-- `StaticVariation::promote`: the packed variation 1 of g1 / g10 (g3) is kept only if the flags
+    without the state bit (bits) are exactly ONLINE -/
+def promote (t : PtType) (v : Nat) (m : Meas) : Nat :=
+  match t with
+  | .binary => if v = 1 then (if m.flags % 128 = 1 then 1 else 2) else v
+  | .binaryOutputStatus => if v = 1 then (if m.flags % 128 = 1 then 1 else 2) else v
+  | .doubleBitBinary => if v = 1 then (if m.flags % 64 = 1 then 1 else 2) else v
+  | _ => v
+
+/-- `promote` for g1 (the name it had when binary inputs were the only packed type) -/
+def promoteBin (v : Nat) (m : Meas) : Nat := promote .binary v m
+
+/-- the variation octet a point is written with: requested or configured variation after `promote`;
+    an octet string's length (`Variation::Group110(value.len())`) -/
+def stVar (t : PtType) (var : Option Nat) (p : Point) : Nat :=
+  match t with
+  | .octetString => p.selected.octets.length
+  | _ => promote t (var.getD p.svar) p.selected
 
 def inRange (it : SelItem) (i : Nat) : Bool := it.start ≤ i && i ≤ it.stop
 
-/-- the objects a queue entry stands for, ascending (`inner.range(range)` + variation choice) -/
+/-- the objects one point map contributes to a typed queue entry -/
+def typedObjs (t : PtType) (var : Option Nat) (it : SelItem) (m : PMap) : List SObj :=
+  (m.filter (fun p => inRange it p.1)).map fun p =>
+    { idx := p.1, g := staticGroup t, v := stVar t var p.2, m := p.2.selected }
+
+/-- the objects a queue entry stands for, ascending (`inner.range(range)` + variation choice);
+    `write_range` picks `write_typed_range::<T>` for the entry's `SpecificVariation` -/
 def itemObjs (db : Db) (it : SelItem) : List SObj :=
   match it.kind with
-  | .binary var =>
-    (db.bins.filter (fun p => inRange it p.1)).map fun p =>
-      { idx := p.1, g := 1, v := promoteBin (var.getD 2) p.2.selected, m := p.2.selected }
-  | .analog var =>
-    (db.ans.filter (fun p => inRange it p.1)).map fun p =>
-      { idx := p.1, g := 30, v := var.getD 1, m := p.2.selected }
+  | .typed k var => typedObjs (Gen.DbT.writeRangeTy k) var it (db.getMap (Gen.DbT.writeRangeTy k))
   | .deadband var =>
-    (db.ans.filter (fun p => inRange it p.1)).map fun p =>
-      { idx := p.1, g := 34, v := var.getD 3, m := { value := 0, flags := 0 } }
-  | .other => []
+    -- `write_analog_dead_bands`: the point's configured dead-band in the requested variation (default g34v3)
+    (db.maps.analog.filter (fun p => inRange it p.1)).map fun p =>
+      { idx := p.1, g := 34, v := var.getD 3, m := { value := p.2.deadband, flags := 0 } }
 
 /-- `State::Header` of the range writer: variation, last index, values under the header -/
 structure StCur where
@@ -501,7 +805,7 @@ def stContinues (c : StCur) (o : SObj) : Bool := c.g == o.g && c.v == o.v && o.i
 def stCost (cur : Option StCur) (o : SObj) : Nat :=
   match cur with
   | some c =>
-    if stContinues c o then (if isBits o.g o.v then (if c.n % 8 = 0 then 1 else 0) else stObjSize o.g o.v)
+    if stContinues c o then (if isBits o.g o.v then (if c.n % perOctet o.g o.v = 0 then 1 else 0) else stObjSize o.g o.v)
     else 7 + (if isBits o.g o.v then 1 else stObjSize o.g o.v)
   | none => 7 + (if isBits o.g o.v then 1 else stObjSize o.g o.v)
 
@@ -533,25 +837,50 @@ def qLoop (db : Db) (cap : Nat) : List SelItem → Nat → List (List SObj) × L
 def stObjBytes (o : SObj) : List Nat :=
   match o.g, o.v with
   | 1, 2 => [o.m.wire .binary]
-  | 30, 1 => let (v, ov) := satInt 32 o.m.value; [overRange o.m.flags ov] ++ le32 (twos 32 v)
-  | 30, 2 => let (v, ov) := satInt 16 o.m.value; [overRange o.m.flags ov] ++ le16 (twos 16 v)
+  | 3, 2 => [o.m.wire .doubleBitBinary]
+  | 10, 2 => [o.m.wire .binaryOutputStatus]
+  | 20, 1 => encU32 o.m
+  | 20, 2 => encU16 o.m
+  | 20, 5 => le32 o.m.value.toNat
+  | 20, 6 => le16 (o.m.value.toNat % 65536)
+  | 21, 1 => encU32 o.m
+  | 21, 2 => encU16 o.m
+  | 21, 5 => encU32 o.m ++ le48 o.m.time
+  | 21, 6 => encU16 o.m ++ le48 o.m.time
+  | 21, 9 => le32 o.m.value.toNat
+  | 21, 10 => le16 (o.m.value.toNat % 65536)
+  | 30, 1 => encI32 o.m
+  | 30, 2 => encI16 o.m
   | 30, 3 => le32 (twos 32 (satInt 32 o.m.value).1)
   | 30, 4 => le16 (twos 16 (satInt 16 o.m.value).1)
-  | 30, 5 => let (b, ov) := f32Bits o.m.value; [overRange o.m.flags ov] ++ le32 b
-  | 30, 6 => [o.m.flags] ++ le64 (f64Bits o.m.value)
-  | 34, 1 => [0, 0]
-  | 34, 2 => [0, 0, 0, 0]
-  | 34, 3 => [0, 0, 0, 0]
+  | 30, 5 => encF32 o.m
+  | 30, 6 => encF64 o.m
+  -- `ToVariation<Group34VarN> for f64`: the dead-band rounded and clamped to u16 / u32, or as f32
+  | 34, 1 => le16 (min o.m.value.toNat 65535)
+  | 34, 2 => le32 (min o.m.value.toNat 4294967295)
+  | 34, 3 => le32 (f32Bits o.m.value).1
+  | 40, 1 => encI32 o.m
+  | 40, 2 => encI16 o.m
+  | 40, 3 => encF32 o.m
+  | 40, 4 => encF64 o.m
+  | 110, n => o.m.octets.take n ++ List.replicate (n - o.m.octets.length) 0
   | _, _ => []
 
 def stRunLen (c : StCur) : List SObj → Nat
   | [] => 0
   | o :: os => if stContinues c o then 1 + stRunLen { c with last := o.idx, n := c.n + 1 } os else 0
 
-/-- one packed octet: bit k = value of the k-th object -/
-def packBits : List SObj → Nat
+/-- the bit(s) one object contributes to a packed octet: `bool::to_mask` / `DoubleBit::to_byte` -/
+def bitVal (w : Nat) (o : SObj) : Nat :=
+  if w = 2 then o.m.value.toNat % 4 else (if o.m.value ≠ 0 then 1 else 0)
+
+/-- one packed octet: the k-th object's value at bit position k * w -/
+def packVals (w : Nat) : List SObj → Nat
   | [] => 0
-  | o :: os => (if o.m.value ≠ 0 then 1 else 0) + 2 * packBits os
+  | o :: os => bitVal w o + 2 ^ w * packVals w os
+
+/-- `packVals` for single bits -/
+def packBits (os : List SObj) : Nat := packVals 1 os
 
 /-- the octets the range writer produces for the objects `os` of ONE queue entry -/
 def encodeStatic : Option StCur → List SObj → List Nat
@@ -563,14 +892,16 @@ def encodeStatic : Option StCur → List SObj → List Nat
     match cont with
     | some c =>
       (if isBits o.g o.v then
-         (if c.n % 8 = 0 then
-            [packBits ((o :: os).take (min 8 (1 + stRunLen { c with last := o.idx, n := c.n + 1 } os)))]
+         (if c.n % perOctet o.g o.v = 0 then
+            [packVals (packWidth o.g o.v)
+              ((o :: os).take (min (perOctet o.g o.v) (1 + stRunLen { c with last := o.idx, n := c.n + 1 } os)))]
           else [])
        else stObjBytes o) ++ encodeStatic (some { c with last := o.idx, n := c.n + 1 }) os
     | none =>
       [o.g, o.v, 0x01] ++ le16 o.idx ++ le16 (o.idx + stRunLen { g := o.g, v := o.v, last := o.idx, n := 1 } os) ++
         (if isBits o.g o.v then
-           [packBits ((o :: os).take (min 8 (stRunLen { g := o.g, v := o.v, last := o.idx, n := 1 } os + 1)))]
+           [packVals (packWidth o.g o.v)
+             ((o :: os).take (min (perOctet o.g o.v) (stRunLen { g := o.g, v := o.v, last := o.idx, n := 1 } os + 1)))]
          else stObjBytes o) ++
         encodeStatic (some { g := o.g, v := o.v, last := o.idx, n := 1 }) os
 end DbM
@@ -581,11 +912,10 @@ namespace DbM
 inductive ReadAct where
   | class0
   | evClass (c : Nat) (limit : Option Nat)
-  | evType (t : PtType) (var : Option Nat) (limit : Option Nat)
-  | evNothing                        -- event type without configured points / frozen analog events
-  | stType (t : PtType) (var : Option Nat) (range : Option (Nat × Nat))
+  | evType (t : PtType) (var : Option Nat) (limit : Option Nat)   -- `t`: the `EventReadHeader` variant
+  | evNothing                        -- frozen analog events: known, unsupported
+  | stType (t : PtType) (var : Option Nat) (range : Option (Nat × Nat))   -- `t`: the `StaticReadHeader` variant
   | stDeadband (var : Option Nat) (range : Option (Nat × Nat))
-  | stOther (range : Option (Nat × Nat))   -- static type without configured points
   | stNothing                        -- frozen analog inputs: known, unsupported, IIN2 = 0
   | attrAll (var : Nat)              -- g0 with 0x06 (no attributes are defined)
   | attrSpecific (var a b : Nat)     -- g0 with 0x00 / 0x01
@@ -596,32 +926,30 @@ deriving DecidableEq, Repr, Inhabited
 
 def optVar (v : Nat) : Option Nat := if v = 0 then none else some v
 
-/-- variations of group `g` that the parser accepts with qualifier 0x06 -/
-def allObjVars : Nat → List Nat
-  | 1 => [0, 1, 2] | 2 => [0, 1, 2, 3] | 3 => [0, 1, 2] | 4 => [0, 1, 2, 3]
-  | 10 => [0, 1, 2] | 11 => [0, 1, 2] | 13 => [1, 2]
-  | 20 => [0, 1, 2, 5, 6] | 21 => [0, 1, 2, 5, 6, 9, 10] | 22 => [0, 1, 2, 5, 6] | 23 => [0, 1, 2, 5, 6]
-  | 30 => [0, 1, 2, 3, 4, 5, 6] | 31 => [0, 1, 2, 3, 4, 5, 6, 7, 8] | 32 => [0, 1, 2, 3, 4, 5, 6, 7, 8]
-  | 33 => [0, 1, 2, 3, 4, 5, 6, 7, 8] | 34 => [0, 1, 2, 3] | 40 => [0, 1, 2, 3, 4]
-  | 42 => [0, 1, 2, 3, 4, 5, 6, 7, 8] | 43 => [1, 2, 3, 4, 5, 6, 7, 8]
-  | 60 => [1, 2, 3, 4] | 80 => [1] | 102 => [0, 1] | 110 => [0] | 111 => [0]
-  | _ => []
+/-- does a pattern of the parser's qualifier tables match (group, variation)? -/
+def patMatches (p : Gen.Pat) (g v : Nat) : Bool :=
+  p.group == g && (match p.var with | some x => x == v | none => true)
 
-/-- … with qualifiers 0x00 / 0x01 in a READ -/
-def rangedVars : Nat → List Nat
-  | 1 => [0, 1, 2] | 3 => [0, 1, 2] | 10 => [0, 1, 2]
-  | 20 => [0, 1, 2, 5, 6] | 21 => [0, 1, 2, 5, 6, 9, 10]
-  | 30 => [0, 1, 2, 3, 4, 5, 6] | 31 => [0, 1, 2, 3, 4, 5, 6, 7, 8] | 34 => [1, 2, 3] | 40 => [0, 1, 2, 3, 4]
-  | 80 => [1] | 102 => [0, 1] | 110 => [0]
-  | _ => []
+/-- does the request parser accept (group, variation) with this family of qualifiers in a READ?
+    (`AllObjectsVariation::get`, `CountVariation::parse`, `RangedVariation::parse_read`) -/
+def parserAccepts (tbl : List (Gen.Pat × Gen.Payload)) (g v : Nat) : Bool := tbl.any fun pp => patMatches pp.1 g v
 
-/-- … with qualifiers 0x07 / 0x08 (g111 accepts every variation) -/
-def countVars : Nat → List Nat
-  | 2 => [0, 1, 2, 3] | 4 => [0, 1, 2, 3] | 11 => [0, 1, 2] | 13 => [1, 2]
-  | 22 => [0, 1, 2, 5, 6] | 23 => [0, 1, 2, 5, 6]
-  | 32 => [0, 1, 2, 3, 4, 5, 6, 7, 8] | 33 => [0, 1, 2, 3, 4, 5, 6, 7, 8]
-  | 42 => [0, 1, 2, 3, 4, 5, 6, 7, 8] | 43 => [1, 2, 3, 4, 5, 6, 7, 8] | 60 => [2, 3, 4]
-  | _ => []
+/-- the arm of a `ReadHeader::from_*` table that matches (group, variation) -/
+def readArm (tbl : List Gen.DbT.ReadArm) (g v : Nat) : Option Gen.DbT.ReadArm :=
+  tbl.find? fun a => a.group == g && a.guard == 0 && (match a.var with | some x => x == v | none => true)
+
+/-- what the matched arm means, given the header's range or count -/
+def tgtAct (t : Gen.DbT.ReadTgt) (v : Nat) (range : Option (Nat × Nat)) (limit : Option Nat) : ReadAct :=
+  match t with
+  | .attrAll => .attrAll v
+  | .attrSpecific => .attrSpecific v (range.getD (0, 0)).1 (range.getD (0, 0)).2
+  | .class0 => .class0
+  | .evClass c keeps => .evClass c (if keeps then limit else none)
+  | .static ty var keeps => .stType ty (var.map (·.2)) (if keeps then range else none)
+  | .event ty var keeps => .evType ty (var.map (·.2)) (if keeps then limit else none)
+  | .frozenAnalog _ _ => .stNothing
+  | .frozenAnalogEvent _ _ => .evNothing
+  | .deadBand var keeps => .stDeadband (var.map (·.2)) (if keeps then range else none)
 
 /-- object size of the count-qualified variations that carry data even in a READ
     (`CountSequence::parse`): g50v1..4, g51v1/2, g52v1/2; 0 = carries none / not such a variation -/
@@ -630,22 +958,14 @@ def countDataSize : Nat → Nat → Nat
   | 51, 1 => 6 | 51, 2 => 6 | 52, 1 => 2 | 52, 2 => 2
   | _, _ => 0
 
-/-- what a parsed header means, by group / variation, given its range or limit -/
-def classifyGV (g v : Nat) (range : Option (Nat × Nat)) (limit : Option Nat) (isCount isRange : Bool) : ReadAct :=
-  match g with
-  | 1 => .stType .binary (optVar v) range
-  | 30 => .stType .analog (optVar v) range
-  | 34 => .stDeadband (optVar v) range
-  | 3 | 10 | 20 | 21 | 40 | 110 => .stOther range
-  | 31 => .stNothing
-  | 2 => .evType .binary (optVar v) limit
-  | 32 => .evType .analog (optVar v) limit
-  | 4 | 11 | 22 | 23 | 42 => .evNothing
-  | 33 => .evNothing
-  | 111 => if v = 0 then .evNothing else .noFunc
-  | 60 => if v = 1 then (if isCount ∨ isRange then .parseError else .class0) else .evClass (v - 1) limit
-  | 13 | 43 | 80 | 102 | 50 | 51 | 52 => .noFunc
-  | _ => .parseError
+/-- parser acceptance, then the `from_*` arm -/
+def classifyWith (accept : List (Gen.Pat × Gen.Payload)) (tbl : List Gen.DbT.ReadArm) (g v : Nat)
+    (range : Option (Nat × Nat)) (limit : Option Nat) : ReadAct :=
+  if parserAccepts accept g v then
+    match readArm tbl g v with
+    | some a => (match a.tgt with | some t => tgtAct t v range limit | none => .noFunc)
+    | none => .noFunc
+  else .parseError
 
 end DbM
 
@@ -659,15 +979,12 @@ def ReadHdr.classify (h : ReadHdr) : ReadAct :=
     else if h.qual = 0x17 ∨ h.qual = 0x28 ∨ h.qual = 0x5B then .uncovered
     else .parseError
   else
-  if h.qual = 0x06 then
-    if (allObjVars h.group).contains h.var then classifyGV h.group h.var none none false false else .parseError
+  if h.qual = 0x06 then classifyWith Gen.allObjects Gen.DbT.readAllObjects h.group h.var none none
   else if h.qual = 0x00 ∨ h.qual = 0x01 then
     if h.b < h.a then .parseError
-    else if (rangedVars h.group).contains h.var then classifyGV h.group h.var (some (h.a, h.b)) none false true
-    else .parseError
+    else classifyWith Gen.rangedRead Gen.DbT.readRange h.group h.var (some (h.a, h.b)) none
   else if h.qual = 0x07 ∨ h.qual = 0x08 then
-    if h.group = 111 ∨ (countVars h.group).contains h.var ∨ countDataSize h.group h.var ≠ 0 then classifyGV h.group h.var none (some h.a) true false
-    else .parseError
+    classifyWith Gen.countTable Gen.DbT.readCount h.group h.var none (some h.a)
   else if h.qual = 0x17 ∨ h.qual = 0x28 ∨ h.qual = 0x5B then .uncovered
   else .parseError
 
@@ -684,33 +1001,34 @@ def Db.pushSel (db : Db) (it : SelItem) : Db × Nat :=
 
 namespace DbM
 /-- copy `current` to `selected` for every point in [start, stop] -/
-def snapshot (start stop : Nat) : List (Nat × Point) → List (Nat × Point)
+def snapshot (start stop : Nat) : PMap → PMap
   | [] => []
   | (i, p) :: rest =>
     (if start ≤ i ∧ i ≤ stop then (i, { p with selected := p.current }) else (i, p)) :: snapshot start stop rest
 
-def fullRange (m : List (Nat × Point)) : Option (Nat × Nat) :=
+def fullRange (m : PMap) : Option (Nat × Nat) :=
   match m.head?, m.getLast? with
   | some a, some b => some (a.1, b.1)
   | _, _ => none
 
+/-- `T::wrap(range, variation)`: the `SpecificVariation` entry (octet strings carry no variation) -/
 def kindOf (t : PtType) (var : Option Nat) : SelKind :=
-  match t with
-  | .binary => .binary var | .analog => .analog var
+  .typed (Gen.DbT.updatable t).wrap (if (Gen.DbT.updatable t).wrapVar then var else none)
 
 end DbM
 
-/-- `StaticDatabase::select_by_type` -/
+/-- `StaticDatabase::select_by_type::<T>` -/
 def Db.selectStatic (db : Db) (t : PtType) (var : Option Nat) (range : Option (Nat × Nat)) : Db × Nat :=
-  match (match range with | some r => some r | none => fullRange (db.map t)) with
+  match (match range with | some r => some r | none => fullRange (db.getMutMap t)) with
   | none => (db, 0)
-  | some (a, b) => (db.setMap t (snapshot a b (db.map t))).pushSel { kind := kindOf t var, start := a, stop := b }
+  | some (a, b) => (db.setMutMap t (snapshot a b (db.getMutMap t))).pushSel { kind := kindOf t var, start := a, stop := b }
 
-/-- `select_class_zero` (binary, then analog; the other enabled types have no points) -/
+/-- `select_class_zero`: every type enabled in `ClassZeroConfig`, in the order of the source -/
 def Db.selectClass0 (db : Db) : Db × Nat :=
-  let (db1, i1) := db.selectStatic .binary none none
-  let (db2, i2) := db1.selectStatic .analog none none
-  (db2, i1 ||| i2)
+  Gen.DbT.classZeroOrder.foldl (fun (p : Db × Nat) t =>
+    if p.1.czero.get (Gen.DbT.updatable t).classZero then
+      ((p.1.selectStatic t none none).1, p.2 ||| (p.1.selectStatic t none none).2)
+    else p) (db, 0)
 
 /-- `DatabaseHandle::select` for one header; returns the IIN2 bits it contributes -/
 def Db.select (db : Db) (h : ReadHdr) : Db × Nat :=
@@ -719,17 +1037,17 @@ def Db.select (db : Db) (h : ReadHdr) : Db × Nat :=
   | .evClass c limit =>
     ({ db with events := (selectEvents (fun r => r.cls == c) none limit db.events).1 }, 0)
   | .evType t var limit =>
-    ({ db with events := (selectEvents (fun r => r.ty == t) var limit db.events).1 }, 0)
+    -- `select_specific_variation` goes through `T::select_variation`, `select_default_variation`
+    -- through `T::is_type`
+    let row := Gen.DbT.insertable (Gen.DbT.eventHdrTy t)
+    let want := if var.isSome then row.select else row.isType
+    ({ db with events := (selectEvents (fun r => r.ty == want) var limit db.events).1 }, 0)
   | .evNothing => (db, 0)
-  | .stType t var range => db.selectStatic t var range
+  | .stType t var range => db.selectStatic (Gen.DbT.staticHdrTy t) var range
   | .stDeadband var range =>
-    match (match range with | some r => some r | none => fullRange db.ans) with
+    match (match range with | some r => some r | none => fullRange db.maps.analog) with
     | none => (db, 0)
     | some (a, b) => db.pushSel { kind := .deadband var, start := a, stop := b }
-  | .stOther range =>
-    match range with
-    | none => (db, 0)
-    | some (a, b) => db.pushSel { kind := .other, start := a, stop := b }
   | .stNothing => (db, 0)
   | .attrAll var =>
     -- 254 / 255: one selection per defined set — there is none
@@ -784,9 +1102,13 @@ def Db.writeUnsolicited (db : Db) (c1 c2 c3 : Bool) (cap : Nat) : Db × List Nat
     let (db2, w, _) := db1.writeEvents cap
     (db2, encodeEvents none w, w.length)
 
-/-- `is_any_full` -/
-def Db.isAnyFull (db : Db) : Bool :=
-  db.evMax != 0 && (db.total.bin ≥ db.evMax || db.total.an ≥ db.evMax)
+/-- `is_full::<T>`: `T::get_max` non-zero and reached by `T::get_type_count` -/
+def Db.isFull (db : Db) (t : PtType) : Bool :=
+  db.evCfg.get (Gen.DbT.insertable t).max != 0 &&
+    decide (db.total.ty (Gen.DbT.insertable t).count ≥ db.evCfg.get (Gen.DbT.insertable t).max)
+
+/-- `is_any_full`: the `||` of `is_full::<T>` over the types the source lists -/
+def Db.isAnyFull (db : Db) : Bool := Gen.DbT.isAnyFull.any db.isFull
 
 /-- `clear_written_events`: released ids in order, remaining per-class totals -/
 def Db.clearWritten (db : Db) : Db × List Nat × (Nat × Nat × Nat) :=
